@@ -96,6 +96,13 @@ pub fn c07(o: &Opts) -> Outcome {
                     ("why".into(), format!("second run into a directory holding chunk files of an earlier run (merge(false)): got {:?}, expected [\"0\\t5\"]", &lines[..lines.len().min(4)]))]) };
             }
         }
+        // records of exactly k, k+1 and k-1 bases (one window, two windows, none), also between ambiguous bytes
+        for k in [4usize, 15, 31] {
+            let base: Vec<u8> = (0..k + 1).map(|i| b"ACGGTCATTGACCAGTTAGGCATCAGGATCCATTG"[i % 35]).collect();
+            let recs: Vec<Vec<u8>> = vec![base[..k].to_vec(), base.clone(), base[..k - 1].to_vec(), [b"N".to_vec(), base[..k].to_vec(), b"N".to_vec()].concat()];
+            cases += 1;
+            if let Some(w) = c07_one(&recs, k, 2, 6.0, false) { return Outcome { cases, witness: Some(w) }; }
+        }
         // multi-member gzip input: every member is counted
         {
             let recs: Vec<Vec<u8>> = vec![b"ACGGTCATTGACCAGTTAGG".to_vec(), b"TTGACCATGGCATTAG".to_vec(), b"ACGGTCATTGACC".to_vec(), b"GGGGGGGGGGGGG".to_vec(), b"AC".to_vec()];
